@@ -136,9 +136,15 @@ class DynamicComponent(Component):
         # - `context` - Same as the Context this component was called with, plus the two layers added by
         #   this component (the data from `get_context_data()` and the internal keys), which we leave out.
         # - `outer_context` - The Context at the place of the `{% component %}` tag, used for the slot fills.
+        #   The same goes for the layer of this component in the RenderContext - for the `{% block %}` tags in the
+        #   slot fills, the inner component must directly follow the template that rendered this component.
         inner_context = copy(context)
         inner_context.dicts = context.dicts[:-2]
+        inner_context.render_context.dicts = context.render_context.dicts[:-1]
         outer_context = component_context_cache[self.id].outer_context
+        if outer_context is not None:
+            outer_context = copy(outer_context)
+            outer_context.render_context.dicts = outer_context.render_context.dicts[:-1]
 
         comp = comp_class(
             registered_name=self.registered_name,
